@@ -51,6 +51,18 @@ Check (C05_search_bytes_eq_scan : forall (b ips pos : N) (secs : list sect),
     /\ (pos + Nlen bs <= U64 ->
         forall pre post q qs qe fuel, Nlen pre = pos -> (length bs <= fuel)%nat ->
           search_bytes fuel false (pre ++ bs ++ post) (pos + 48) q qs qe = Ok (scan secs q qs qe))).
+Check (C05_search_bytes_widen : forall (b ips pos : N) (secs : list sect),
+  2 <= b <= 65535 -> secs <> [] -> sorted_starts (map sect_span secs) -> Forall sect_ok secs ->
+  exists bs levels, write_index b ips pos secs = Ok (bs, levels)
+    /\ (pos + Nlen bs <= U64 ->
+        forall pre post q qs qe qs' qe' fuel, Nlen pre = pos -> (length bs <= fuel)%nat ->
+          qs' <= qs -> qe <= qe' ->
+          exists r r', search_bytes fuel false (pre ++ bs ++ post) (pos + 48) q qs qe = Ok r
+            /\ search_bytes fuel false (pre ++ bs ++ post) (pos + 48) q qs' qe' = Ok r'
+            /\ incl r r')).
+Check (C05_scan_widen_refilter : forall secs q qs qe qs' qe', qs' <= qs -> qe <= qe' ->
+  filter (fun s => overlaps q qs qe (sect_span s)) secs =
+  filter (fun s => overlaps q qs qe (sect_span s)) (filter (fun s => overlaps q qs' qe' (sect_span s)) secs)).
 (* the definitions the statements rest on, pinned by value *)
 Check (eq_refl : U16 = 65536).
 Check (eq_refl : U32 = 4294967296).
